@@ -87,6 +87,16 @@ Definition centry_tree (e : list relrec) : rtree := entry_from_relations fixed (
 (* Relations::from(vec![...]) *)
 Definition cfield_tree (f : lfield) : rtree := relations_from_entries (map centry_tree f).
 
+(* what RelationBuilder::build builds (Relation::new, then set_archqual, set_architectures,
+   add_profile per group): name[:qual][ (op ver)][ [archs]]( <profile group>)* *)
+Definition brel_tree (r : relrec) : rtree :=
+  Node RELATION (Tok IDENT (rr_name r) ::
+     (match rr_qual r with Some q => [archqual_node q] | None => [] end) ++
+     (match rr_ver r with Some (vc, ver) => [t_space; version_node vc ver] | None => [] end) ++
+     (match rr_archs r with Some a => [t_space; architectures_node a] | None => [] end) ++
+     flat_map (fun g => [t_space; profiles_node g]) (rr_profs r)).
+Definition bentry_tree (e : list relrec) : rtree := entry_from_relations fixed (map brel_tree e).
+
 Definition plain_entry (e : list relrec) : bool := forallb plain e.
 Definition plain_field (f : lfield) : bool := forallb plain_entry f.
 
@@ -94,9 +104,9 @@ Definition plain_field (f : lfield) : bool := forallb plain_entry f.
 (* operands are built with the constructors; every edit below the root goes through handles
    obtained from the current root right before it (entry register 0, relation register 0) *)
 Definition rel_spec (r : relrec) : relspec :=
-  match rr_qual r with
-  | None => RSNew (rr_name r) (rr_ver r)
-  | Some q => RSBuild (rr_name r) (rr_ver r) (Some q) (rr_archs r) (rr_profs r)
+  match rr_qual r, rr_archs r, rr_profs r with
+  | None, None, [] => RSNew (rr_name r) (rr_ver r)
+  | _, _, _ => RSBuild (rr_name r) (rr_ver r) (rr_qual r) (rr_archs r) (rr_profs r)
   end.
 Definition entry_spec (e : list relrec) : entryspec := ESFromVec (map rel_spec e).
 Definition compile (o : aop) : list op :=
@@ -220,7 +230,8 @@ Definition substvar_texts (t : rtree) : list str := map text (filter (node_is SU
    variables allowed), after every operation of every in-range history the machine has not
    panicked, the root holds exactly the list model's field, its text parses again without
    error to that same field, and the substitution variables kept their text.  [v] is the
-   variant of the code the statement is about. *)
+   variant of the code the statement is about.  Proved for [fixed] (the code as it is in /repo):
+   props/C11.v, C11_full_theorem. *)
 Definition C11_full (v : variant) : Prop :=
   forall (s : str) (t0 : rtree) (f0 : lfield) (ops : list aop),
     parse_relaxed s true = Ok (t0, 0) -> structure t0 = Ok f0 ->
